@@ -1173,6 +1173,92 @@ mod verif_driver_compile {
         println!("VERIF-CASES fn=entry_point n={n}");
     }
 
+    // ---- C02: an asset list that names a class more than once (a client-sent IR may; the reducer merges them) denotes the SUM
+    // of the entries: in an output, a published output, a mint and a burn the amounts of a repeated class add up (or the
+    // transaction is refused) - the later entries are never dropped.
+    #[test]
+    fn repeated_asset_classes_add_up() {
+        let mut n = 0;
+        let addr = |k: u8| { let mut a = vec![0x61u8]; a.extend(vec![k; 28]); tir::Expression::Address(a) };
+        let pparams = PParams {
+            network: Network::Testnet, min_fee_coefficient: 44, min_fee_constant: 155381, coins_per_utxo_byte: 4310,
+            cost_models: HashMap::from([(0u8, vec![0i64; 166]), (1u8, vec![0i64; 175]), (2u8, vec![0i64; 251])]),
+        };
+        let value_of = |o: Option<&primitives::TransactionOutput>| -> (i128, Vec<(u8, i128)>) {
+            match o {
+                Some(primitives::TransactionOutput::PostAlonzo(o)) => match &o.value {
+                    primitives::Value::Coin(c) => (*c as i128, vec![]),
+                    primitives::Value::Multiasset(c, ma) => (*c as i128, ma.iter().flat_map(|(pol, m)| m.iter().map(move |(_, a)| (pol[0], u64::from(*a) as i128))).collect()),
+                },
+                _ => (-1, vec![]),
+            }
+        };
+        for order in 0..3u8 {
+            n += 1;
+            let list = match order {
+                0 => vec![ada(3_000_000), tok(2, "B", 5), ada(2_000_000), tok(2, "B", 7)],
+                1 => vec![tok(2, "B", 5), tok(2, "B", 7), ada(3_000_000), ada(2_000_000)],
+                _ => vec![ada(3_000_000), ada(2_000_000), tok(2, "B", 5), tok(3, "C", 1), tok(2, "B", 7)],
+            };
+            let mut tx = empty_tx();
+            tx.fees = num(321_000);
+            tx.inputs = vec![tir::Input { name: "a".into(), utxos: tir::Expression::UtxoRefs(vec![tx3_tir::model::core::UtxoRef { txid: vec![0x33; 32], index: 1 }]), redeemer: tir::Expression::None }];
+            tx.outputs = vec![tir::Output { address: addr(3), datum: tir::Expression::None, amount: tir::Expression::Assets(list.clone()), optional: false }];
+            tx.mints = vec![mint_of(vec![tok(2, "B", 5), tok(2, "B", 7)])];
+            tx.burns = vec![mint_of(vec![tok(1, "A", 1), tok(1, "A", 2)])];
+            tx.adhoc = vec![adhoc("cardano_publish", vec![("to", addr(6)), ("amount", tir::Expression::Assets(list.clone())), ("version", num(3)), ("script", tir::Expression::Bytes(vec![0x51, 1, 1, 0, 2]))])];
+            let desc = format!("asset list with repeated classes (order {order}): lovelace 3000000 + 2000000, token B 5 + 7");
+            match quiet(|| entry_point(&tx, &pparams)) {
+                Err(p) => witness("c02_cardano/entry_point#reachable-panic", "entry_point", desc, format!("panic:{p}"), "Ok or Err"),
+                Ok(Err(_)) => {}
+                Ok(Ok(t)) => {
+                    let b = &t.transaction_body;
+                    let want_tokens: Vec<(u8, i128)> = if order == 2 { vec![(2, 12), (3, 1)] } else { vec![(2, 12)] };
+                    for (what, o) in [("output", b.outputs.first()), ("published output", b.outputs.last())] {
+                        let (coin, mut toks) = value_of(o);
+                        toks.sort();
+                        if coin != 5_000_000 || toks != want_tokens {
+                            witness("c02_cardano/entry_point#quantities", "entry_point", format!("{desc} class=repeated-class-not-summed"), format!("{what}: {coin} lovelace + tokens {toks:?}"), &format!("5000000 lovelace + tokens {want_tokens:?} (or an error)"));
+                        }
+                    }
+                    let mut mint: Vec<(u8, i128)> = b.mint.iter().flat_map(|ma| ma.iter()).flat_map(|(pol, m)| m.iter().map(move |(_, a)| (pol[0], i64::from(*a) as i128))).collect();
+                    mint.sort();
+                    if mint != vec![(1u8, -3), (2u8, 12)] {
+                        witness("c02_cardano/entry_point#quantities", "entry_point", format!("{desc}; mint B 5 + 7, burn A 1 + 2 class=repeated-class-not-summed"), format!("mint {mint:?}"), "mint [(1, -3), (2, 12)] (or an error)");
+                    }
+                }
+            }
+        }
+        println!("VERIF-CASES fn=entry_point n={n}");
+    }
+
+    // ---- C02: two withdrawal directives for the SAME reward account: the body's withdrawals map has one entry per account, so
+    // either the entry holds the sum or the transaction is refused - the amount of one directive is never silently dropped.
+    #[test]
+    fn withdrawals_of_one_account_are_not_dropped() {
+        let mut n = 0;
+        let reward = |k: u8| { let mut a = vec![0xe0u8]; a.extend(vec![k; 28]); tir::Expression::Address(a) };
+        for (a, b) in [(5i128, 6i128), (6, 5), (0, 7), (7, 0), (5, 5)] {
+            n += 1;
+            let mut tx = empty_tx();
+            tx.adhoc = vec![
+                adhoc("withdrawal", vec![("credential", reward(8)), ("amount", num(a)), ("redeemer", tir::Expression::None)]),
+                adhoc("withdrawal", vec![("credential", reward(8)), ("amount", num(b)), ("redeemer", tir::Expression::None)]),
+            ];
+            match quiet(|| compile_withdrawals(&tx, Network::Testnet)) {
+                Err(p) => witness("c02_cardano/compile_withdrawals#reachable-panic", "compile_withdrawals", format!("two directives for one account, amounts {a} and {b}"), format!("panic:{p}"), "Ok or Err"),
+                Ok(Err(_)) => {}
+                Ok(Ok(m)) => {
+                    let got: Vec<i128> = m.iter().flat_map(|m| m.values()).map(|c| *c as i128).collect();
+                    if got != vec![a + b] {
+                        witness("c02_cardano/compile_withdrawals#quantities", "compile_withdrawals", format!("two withdrawal directives for one reward account, amounts {a} and {b} class=repeated-reward-account"), format!("withdrawals {got:?}"), &format!("one entry of {} (the sum), or an error", a + b));
+                    }
+                }
+            }
+        }
+        println!("VERIF-CASES fn=compile_withdrawals n={n}");
+    }
+
     // ---- C10 (reproducibility): collateral inputs come out in template order, the same in every compilation.
     // BOUND: 12 distinct collateral references, 33 repetitions.
     #[test]
